@@ -499,6 +499,7 @@ Lemma pp_grant_access_ok cx W W' :
     msigner m1 = true /\ mkey m1 = pc_sentinel c /\ pc_paused c = false /\
     owner (get W (mkey m2)) = KPassport /\ data (get W (mkey m2)) = DAccessReq r /\
     mkey m3 = ar_beneficiary r /\
+    mkey m1 <> mkey m2 /\ mkey m3 <> mkey m2 /\
     let bal := lamports (get W (mkey m2)) in
     (bal = 0 \/ (is_writable (cx_metas cx) (mkey m2) = true /\ cx_prog cx = KPassport)) /\
     (ar_fee r = 0 \/ is_writable (cx_metas cx) (mkey m1) = true) /\
@@ -509,15 +510,22 @@ Lemma pp_grant_access_ok cx W W' :
                             + (if key_eqb k (mkey m1) then ar_fee r else 0)
                             + (if key_eqb k (mkey m3) then bal - ar_fee r else 0).
 Proof.
-  unfold pp_grant_access. intros H. inv_all. apply pp_verified_ok in Hm.
-  destruct Hm as (m0 & m1 & Hms & -> & -> & _ & Ho & Hd & Hs & Hk). cbn in Hk.
-  apply pp_zc_request_ok in Hm1. destruct Hm1 as (m2 & -> & -> & Hor & Hdr).
-  apply next_any_ok in Hm2. subst l0. keq.
-  apply set_lamports_to_zero_ok in Hm4. destruct Hm4 as (Hz & Hn1 & Hp1).
-  apply credit_ok in Hm5. destruct Hm5 as (Hc1 & Hn2 & Hp2).
+  unfold pp_grant_access. intros H. inv_all.
+  match goal with H : pp_verified _ _ _ _ = Ok _ |- _ =>
+    apply pp_verified_ok in H; destruct H as (m0 & m1 & Hms & ? & ? & _ & Ho & Hd & Hs & Hk) end. cbn in Hk.
+  match goal with H : pp_zc_request _ _ = Ok _ |- _ =>
+    apply pp_zc_request_ok in H; destruct H as (m2 & ? & ? & Hor & Hdr) end.
+  match goal with H : next_any _ _ = Ok (?mb, _) |- _ => apply next_any_ok in H; rename mb into m3 end.
+  match goal with H : set_lamports_to_zero _ _ _ = Ok _ |- _ =>
+    apply set_lamports_to_zero_ok in H; destruct H as (Hz & Hn1 & Hp1) end.
+  match goal with H : credit _ _ _ (ar_fee _) = Ok _ |- _ => apply credit_ok in H; destruct H as (Hc1 & Hn2 & Hp2) end.
   apply credit_ok in H. destruct H as (Hc2 & Hn3 & Hp3).
-  match goal with Hb : mkey ?mb = ar_beneficiary _ |- _ => exists m0, m1, m2, mb end. do 3 eexists. cbn zeta.
-  repeat (split; [first [eassumption|congruence]|]).
+  subst. keq.
+  exists m0, m1, m2, m3. do 3 eexists. cbn zeta.
+  split; [eassumption|]. split; [assumption|]. split; [eassumption|]. split; [assumption|]. split; [assumption|].
+  split; [assumption|]. split; [assumption|]. split; [eassumption|]. split; [assumption|].
+  split. { intros E. match goal with Hne : key_eqb (mkey m1) (mkey m2) = false |- _ => rewrite E, key_eqb_refl in Hne; discriminate end. }
+  split. { intros E. match goal with Hne : key_eqb (mkey m3) (mkey m2) = false |- _ => rewrite E, key_eqb_refl in Hne; discriminate end. }
   split. { destruct Hz as [Hz|(Hz1 & Hz2)]; [left; assumption|right; split; [assumption|congruence]]. }
   split; [assumption|]. split; [assumption|]. split; [congruence|].
   intros k. destruct (Hp1 k) as (Ha1 & Hb1), (Hp2 k) as (Ha2 & Hb2), (Hp3 k) as (Ha3 & Hb3).
@@ -532,19 +540,26 @@ Lemma pp_deny_access_ok cx W W' :
     owner (get W (mkey m0)) = KPassport /\ data (get W (mkey m0)) = DPpConfig c /\
     msigner m1 = true /\ mkey m1 = pc_sentinel c /\ pc_paused c = false /\
     owner (get W (mkey m2)) = KPassport /\ data (get W (mkey m2)) = DAccessReq r /\
+    mkey m1 <> mkey m2 /\
     let bal := lamports (get W (mkey m2)) in
     (bal = 0 \/ (is_writable (cx_metas cx) (mkey m2) = true /\ cx_prog cx = KPassport /\ is_writable (cx_metas cx) (mkey m1) = true)) /\
     now W' = now W /\
     forall k, same_meta (get W' k) (get W k) /\
       lamports (get W' k) = (if key_eqb k (mkey m2) then 0 else lamports (get W k)) + (if key_eqb k (mkey m1) then bal else 0).
 Proof.
-  unfold pp_deny_access. intros H. inv_all. apply pp_verified_ok in Hm.
-  destruct Hm as (m0 & m1 & Hms & -> & -> & _ & Ho & Hd & Hs & Hk). cbn in Hk.
-  apply pp_zc_request_ok in Hm1. destruct Hm1 as (m2 & -> & -> & Hor & Hdr). keq.
-  apply set_lamports_to_zero_ok in Hm2. destruct Hm2 as (Hz & Hn1 & Hp1).
+  unfold pp_deny_access. intros H. inv_all.
+  match goal with H : pp_verified _ _ _ _ = Ok _ |- _ =>
+    apply pp_verified_ok in H; destruct H as (m0 & m1 & Hms & ? & ? & _ & Ho & Hd & Hs & Hk) end. cbn in Hk.
+  match goal with H : pp_zc_request _ _ = Ok _ |- _ =>
+    apply pp_zc_request_ok in H; destruct H as (m2 & ? & ? & Hor & Hdr) end.
+  match goal with H : set_lamports_to_zero _ _ _ = Ok _ |- _ =>
+    apply set_lamports_to_zero_ok in H; destruct H as (Hz & Hn1 & Hp1) end.
   apply credit_ok in H. destruct H as (Hc1 & Hn2 & Hp2).
+  subst. keq.
   exists m0, m1, m2. do 3 eexists. cbn zeta.
-  repeat (split; [first [eassumption|congruence]|]).
+  split; [eassumption|]. split; [assumption|]. split; [eassumption|]. split; [assumption|]. split; [assumption|].
+  split; [assumption|]. split; [assumption|]. split; [eassumption|].
+  split. { intros E. match goal with Hne : key_eqb (mkey m1) (mkey m2) = false |- _ => rewrite E, key_eqb_refl in Hne; discriminate end. }
   split. { destruct Hz as [Hz|(Hz1 & Hz2)]; [left; assumption|]. destruct Hc1 as [Hc1|Hc1]; [left; assumption|].
            right. split; [assumption|]. split; [congruence|assumption]. }
   split; [congruence|].
@@ -931,6 +946,7 @@ Lemma pp_grant_access_spec cx W W' :
   let rk := nthk (cx_metas cx) 2 in
   exists c r, is_pp_config W (nthk (cx_metas cx) 0) c /\ is_pp_request W rk r /\
     nthk (cx_metas cx) 1 = pc_sentinel c /\ nthk (cx_metas cx) 3 = ar_beneficiary r /\
+    pc_sentinel c <> rk /\ ar_beneficiary r <> rk /\
     let bal := lamports (get W rk) in
     now W' = now W /\
     forall k, get W' k = get W k <| lamports :=
@@ -938,9 +954,9 @@ Lemma pp_grant_access_spec cx W W' :
         + (if key_eqb k (ar_beneficiary r) then bal - ar_fee r else 0) |>.
 Proof.
   intros H. apply pp_grant_access_ok in H. cbn zeta in *.
-  destruct H as (m0 & m1 & m2 & m3 & rest & c & r & Hms & Ho & Hd & _ & Hk & _ & Hor & Hdr & Hb & _ & _ & _ & Hnow & Hpt).
+  destruct H as (m0 & m1 & m2 & m3 & rest & c & r & Hms & Ho & Hd & _ & Hk & _ & Hor & Hdr & Hb & Hne1 & Hne3 & _ & _ & _ & Hnow & Hpt).
   nthk_norm Hms. exists c, r. unfold is_pp_config, is_pp_request. cbn zeta.
-  repeat (split; [solve [auto]|]). intros k. destruct (Hpt k) as (Hx & Hy). rewrite <- Hk, <- Hb.
+  repeat (split; [solve [auto | congruence]|]). intros k. destruct (Hpt k) as (Hx & Hy). rewrite <- Hk, <- Hb.
   apply acct_ext; [rewrite set_lamports_lam; exact Hy|]. eapply same_meta_trans; [exact Hx|]. destruct (get W k); repeat split.
 Qed.
 
@@ -949,40 +965,60 @@ Lemma pp_deny_access_spec cx W W' :
   pp_deny_access cx W = Ok W' ->
   let rk := nthk (cx_metas cx) 2 in
   exists c r, is_pp_config W (nthk (cx_metas cx) 0) c /\ is_pp_request W rk r /\ nthk (cx_metas cx) 1 = pc_sentinel c /\
-    now W' = now W /\
+    pc_sentinel c <> rk /\ now W' = now W /\
     forall k, get W' k = get W k <| lamports :=
         (if key_eqb k rk then 0 else lamports (get W k)) + (if key_eqb k (pc_sentinel c) then lamports (get W rk) else 0) |>.
 Proof.
   intros H. apply pp_deny_access_ok in H. cbn zeta in *.
-  destruct H as (m0 & m1 & m2 & rest & c & r & Hms & Ho & Hd & _ & Hk & _ & Hor & Hdr & _ & Hnow & Hpt).
+  destruct H as (m0 & m1 & m2 & rest & c & r & Hms & Ho & Hd & _ & Hk & _ & Hor & Hdr & Hne1 & _ & Hnow & Hpt).
   nthk_norm Hms. exists c, r. unfold is_pp_config, is_pp_request. cbn zeta.
-  repeat (split; [solve [auto]|]). intros k. destruct (Hpt k) as (Hx & Hy). rewrite <- Hk.
+  repeat (split; [solve [auto | congruence]|]). intros k. destruct (Hpt k) as (Hx & Hy). rewrite <- Hk.
   apply acct_ext; [rewrite set_lamports_lam; exact Hy|]. eapply same_meta_trans; [exact Hx|]. destruct (get W k); repeat split.
 Qed.
 
-(* readable consequences for the non-aliased and the aliased cases *)
+(* readable consequences: the request account always ends at zero (it can alias neither party); the sentinel and the
+   beneficiary may be the same account *)
 Lemma pp_grant_access_amounts cx W W' :
   pp_grant_access cx W = Ok W' ->
   exists c r, is_pp_config W (nthk (cx_metas cx) 0) c /\ is_pp_request W (nthk (cx_metas cx) 2) r /\
     let rk := nthk (cx_metas cx) 2 in let s := pc_sentinel c in let b := ar_beneficiary r in
     let bal := lamports (get W rk) in let fee := ar_fee r in
-    (s <> rk -> b <> rk -> lamports (get W' rk) = 0) /\
-    (s <> rk -> s <> b -> lamports (get W' s) = lamports (get W s) + fee) /\
-    (b <> rk -> s <> b -> lamports (get W' b) = lamports (get W b) + (bal - fee)) /\
-    (s <> rk -> s = b -> lamports (get W' s) = lamports (get W s) + fee + (bal - fee)) /\
+    s <> rk /\ b <> rk /\
+    lamports (get W' rk) = 0 /\
+    (s <> b -> lamports (get W' s) = lamports (get W s) + fee) /\
+    (s <> b -> lamports (get W' b) = lamports (get W b) + (bal - fee)) /\
+    (s = b -> lamports (get W' s) = lamports (get W s) + fee + (bal - fee)) /\
     (forall k, k <> rk -> k <> s -> k <> b -> get W' k = get W k) /\
     (forall k, owner (get W' k) = owner (get W k) /\ alen (get W' k) = alen (get W k) /\ data (get W' k) = data (get W k)).
 Proof.
-  intros H. apply pp_grant_access_spec in H. cbn zeta in *. destruct H as (c & r & Hc & Hr & _ & _ & _ & Hpt).
+  intros H. apply pp_grant_access_spec in H. cbn zeta in *. destruct H as (c & r & Hc & Hr & _ & _ & Hn1 & Hn3 & _ & Hpt).
   exists c, r. split; [assumption|]. split; [assumption|].
   remember (nthk (cx_metas cx) 2) as rk. remember (pc_sentinel c) as s. remember (ar_beneficiary r) as b.
   assert (Hl : forall k, lamports (get W' k) = (if key_eqb k rk then 0 else lamports (get W k)) + (if key_eqb k s then ar_fee r else 0)
                + (if key_eqb k b then lamports (get W rk) - ar_fee r else 0)) by (intros k; rewrite Hpt; apply set_lamports_lam).
-  split. { intros H1 H2. rewrite Hl, key_eqb_refl, (key_eqb_neq rk s), (key_eqb_neq rk b) by congruence. lia. }
-  split. { intros H1 H2. rewrite Hl, key_eqb_refl, (key_eqb_neq s rk), (key_eqb_neq s b) by congruence. lia. }
-  split. { intros H1 H2. rewrite Hl, key_eqb_refl, (key_eqb_neq b rk), (key_eqb_neq b s) by congruence. lia. }
-  split. { intros H1 H2. rewrite Hl, <- H2, key_eqb_refl, (key_eqb_neq s rk) by congruence. lia. }
+  split; [assumption|]. split; [assumption|].
+  split. { rewrite Hl, key_eqb_refl, (key_eqb_neq rk s), (key_eqb_neq rk b) by congruence. lia. }
+  split. { intros H2. rewrite Hl, key_eqb_refl, (key_eqb_neq s rk), (key_eqb_neq s b) by congruence. lia. }
+  split. { intros H2. rewrite Hl, key_eqb_refl, (key_eqb_neq b rk), (key_eqb_neq b s) by congruence. lia. }
+  split. { intros H2. rewrite Hl, <- H2, key_eqb_refl, (key_eqb_neq s rk) by congruence. lia. }
   split. { intros k H1 H2 H3. rewrite Hpt, !key_eqb_neq by assumption. apply acct_ext; [rewrite set_lamports_lam; lia|apply set_lamports_meta]. }
+  intros k. rewrite Hpt. destruct (get W k); auto.
+Qed.
+Lemma pp_deny_access_amounts cx W W' :
+  pp_deny_access cx W = Ok W' ->
+  exists c r, is_pp_config W (nthk (cx_metas cx) 0) c /\ is_pp_request W (nthk (cx_metas cx) 2) r /\
+    let rk := nthk (cx_metas cx) 2 in let s := pc_sentinel c in
+    s <> rk /\ lamports (get W' rk) = 0 /\ lamports (get W' s) = lamports (get W s) + lamports (get W rk) /\
+    (forall k, k <> rk -> k <> s -> get W' k = get W k) /\
+    (forall k, owner (get W' k) = owner (get W k) /\ alen (get W' k) = alen (get W k) /\ data (get W' k) = data (get W k)).
+Proof.
+  intros H. apply pp_deny_access_spec in H. cbn zeta in *. destruct H as (c & r & Hc & Hr & _ & Hn1 & _ & Hpt).
+  exists c, r. split; [assumption|]. split; [assumption|].
+  remember (nthk (cx_metas cx) 2) as rk. remember (pc_sentinel c) as s.
+  split; [assumption|].
+  split. { rewrite Hpt, set_lamports_lam, key_eqb_refl, (key_eqb_neq rk s) by congruence. lia. }
+  split. { rewrite Hpt, set_lamports_lam, key_eqb_refl, (key_eqb_neq s rk) by congruence. lia. }
+  split. { intros k H1 H2. rewrite Hpt, !key_eqb_neq by assumption. apply acct_ext; [rewrite set_lamports_lam; lia|apply set_lamports_meta]. }
   intros k. rewrite Hpt. destruct (get W k); auto.
 Qed.
 
@@ -1036,7 +1072,7 @@ Lemma pp_grant_access_accounting cx W W' ks :
      total W' ks + lamports (get W (nthk (cx_metas cx) 2)) =
      total W ks + ar_fee r + (lamports (get W (nthk (cx_metas cx) 2)) - ar_fee r)).
 Proof.
-  intros H Hnd. apply pp_grant_access_spec in H. cbn zeta in H. destruct H as (c & r & Hc & Hr & _ & _ & _ & Hpt).
+  intros H Hnd. apply pp_grant_access_spec in H. cbn zeta in H. destruct H as (c & r & Hc & Hr & _ & _ & _ & _ & _ & Hpt).
   exists c, r. split; [assumption|]. split; [assumption|]. intros H2 Hs Hb. remember (nthk (cx_metas cx) 2) as rk.
   remember (lamports (get W rk)) as bal. unfold total.
   pose proof (sum_balance ks (fun k => lamports (get W' k)) (fun k => lamports (get W k))
@@ -1062,7 +1098,7 @@ Lemma pp_deny_access_conserves cx W W' ks :
   exists c, is_pp_config W (nthk (cx_metas cx) 0) c /\
     (In (nthk (cx_metas cx) 2) ks -> In (pc_sentinel c) ks -> total W' ks = total W ks).
 Proof.
-  intros H Hnd. apply pp_deny_access_spec in H. cbn zeta in H. destruct H as (c & r & Hc & Hr & _ & _ & Hpt).
+  intros H Hnd. apply pp_deny_access_spec in H. cbn zeta in H. destruct H as (c & r & Hc & Hr & _ & _ & _ & Hpt).
   exists c. split; [assumption|]. intros H2 Hs. remember (nthk (cx_metas cx) 2) as rk.
   remember (lamports (get W rk)) as bal. unfold total.
   pose proof (sum_balance ks (fun k => lamports (get W' k)) (fun k => lamports (get W k))
@@ -1078,4 +1114,193 @@ Lemma pp_configure_program_lamports cx W s W' k : pp_configure_program cx W s = 
 Proof.
   intros H. apply pp_configure_program_ok in H. destruct H as (m0 & m1 & rest & c & c' & _ & _ & _ & _ & _ & _ & _ & _ & ->).
   rewrite get_put. case_key (mkey m0) k; [rewrite set_data_eq|]; reflexivity.
+Qed.
+
+(* ------------------------------------------------------------------------------------------------------------- *)
+(* 9. C17 / C18 invariants                                                                                         *)
+(* ------------------------------------------------------------------------------------------------------------- *)
+(* what ConfigureProgram maintains: either no deposit has been configured yet, or the fee is strictly below it *)
+Definition cfg_ok (c : pp_config) : Prop := pc_deposit c = 0 \/ pc_fee c < pc_deposit c.
+
+Lemma cfg_ok_default : cfg_ok pp_config_default.
+Proof. left. reflexivity. Qed.
+
+(* ---- C18: validation of settings ---- *)
+Lemma apply_setting_deposit_iff c dep fee :
+  (exists c', apply_setting c (PSAccessRequestDeposit dep fee) = Some c') <-> (dep <> 0 /\ fee < dep).
+Proof.
+  cbn [apply_setting]. destruct (dep =? 0) eqn:E1, (fee <? dep) eqn:E2; cbn [negb andb]; keq; split;
+    try (intros (c' & H); discriminate H); try (intros (H1 & H2); lia); eauto.
+Qed.
+Lemma apply_setting_limit_iff c l : (exists c', apply_setting c (PSBackupIdsLimit l) = Some c') <-> l <> 0.
+Proof.
+  cbn [apply_setting]. destruct (l =? 0) eqn:E1; cbn [negb]; keq; split; try (intros (c' & H); discriminate H); eauto; try lia.
+Qed.
+Lemma apply_setting_deposit_result c dep fee c' :
+  apply_setting c (PSAccessRequestDeposit dep fee) = Some c' ->
+  pc_deposit c' = dep /\ pc_fee c' = fee /\ dep <> 0 /\ fee < dep /\ pc_backup_limit c' = pc_backup_limit c /\
+  pc_admin c' = pc_admin c /\ pc_sentinel c' = pc_sentinel c /\ pc_paused c' = pc_paused c /\ pc_request_paused c' = pc_request_paused c.
+Proof.
+  intros H. pose proof (proj1 (apply_setting_deposit_iff c dep fee) (ex_intro _ c' H)) as (H1 & H2).
+  cbn [apply_setting] in H. destruct (negb (dep =? 0) && (fee <? dep)); [|discriminate]. ok_inj H. destruct c; cbn. auto 10.
+Qed.
+Lemma apply_setting_limit_result c l c' :
+  apply_setting c (PSBackupIdsLimit l) = Some c' -> pc_backup_limit c' = l /\ l <> 0 /\ pc_deposit c' = pc_deposit c /\ pc_fee c' = pc_fee c.
+Proof.
+  intros H. pose proof (proj1 (apply_setting_limit_iff c l) (ex_intro _ c' H)) as H1.
+  cbn [apply_setting] in H. destruct (negb (l =? 0)); [|discriminate]. ok_inj H. destruct c; cbn. auto.
+Qed.
+Lemma apply_setting_cfg_ok c s c' : apply_setting c s = Some c' -> cfg_ok c -> cfg_ok c'.
+Proof.
+  unfold cfg_ok. destruct s as [[b|b]|k|dep fee|lim]; intros H Hc.
+  - cbn in H. ok_inj H. destruct c; exact Hc.
+  - cbn in H. ok_inj H. destruct c; exact Hc.
+  - cbn in H. ok_inj H. destruct c; exact Hc.
+  - apply apply_setting_deposit_result in H. destruct H as (-> & -> & _ & H & _). right. exact H.
+  - apply apply_setting_limit_result in H. destruct H as (_ & _ & -> & ->). exact Hc.
+Qed.
+
+(* ConfigureProgram with a deposit (resp. limit) setting is accepted iff the values are valid, given that the account and
+   authority checks pass; and a rejected instruction is an error, so by atomicity nothing changes (tx_failed_unchanged) *)
+Lemma pp_configure_validation cx W m0 m1 rest c :
+  cx_metas cx = m0 :: m1 :: rest -> mwritable m0 = true -> is_pp_config W (mkey m0) c ->
+  msigner m1 = true -> mkey m1 = pc_admin c -> cx_prog cx = KPassport ->
+  (forall dep fee, is_ok (pp_configure_program cx W (PSAccessRequestDeposit dep fee)) = true <-> (dep <> 0 /\ fee < dep)) /\
+  (forall l, is_ok (pp_configure_program cx W (PSBackupIdsLimit l)) = true <-> l <> 0).
+Proof.
+  intros Hms Hw (Ho & Hd) Hs Hk Hp. split; [intros dep fee|intros l]; rewrite is_ok_true.
+  - rewrite <- (apply_setting_deposit_iff c). split.
+    + intros (W' & H). apply pp_configure_program_ok in H.
+      destruct H as (m0' & m1' & rest' & c0 & c' & Hms' & _ & _ & Hd' & _ & _ & _ & Ha & _).
+      rewrite Hms in Hms'. ok_inj Hms'. assert (c0 = c) by congruence. subst. eauto.
+    + intros (c' & Ha). eexists. eapply pp_configure_program_complete; eassumption.
+  - rewrite <- (apply_setting_limit_iff c). split.
+    + intros (W' & H). apply pp_configure_program_ok in H.
+      destruct H as (m0' & m1' & rest' & c0 & c' & Hms' & _ & _ & Hd' & _ & _ & _ & Ha & _).
+      rewrite Hms in Hms'. ok_inj Hms'. assert (c0 = c) by congruence. subst. eauto.
+    + intros (c' & Ha). eexists. eapply pp_configure_program_complete; eassumption.
+Qed.
+(* unconditional direction: an accepted deposit / limit setting is valid and is what the config holds afterwards *)
+Lemma pp_configure_deposit_accepted cx W dep fee W' :
+  pp_configure_program cx W (PSAccessRequestDeposit dep fee) = Ok W' ->
+  dep <> 0 /\ fee < dep /\ exists c', is_pp_config W' (nthk (cx_metas cx) 0) c' /\ pc_deposit c' = dep /\ pc_fee c' = fee.
+Proof.
+  intros H. apply pp_configure_program_ok in H. destruct H as (m0 & m1 & rest & c & c' & Hms & _ & Ho & _ & _ & _ & _ & Ha & ->).
+  apply apply_setting_deposit_result in Ha. destruct Ha as (H1 & H2 & H3 & H4 & _). split; [assumption|]. split; [assumption|].
+  exists c'. nthk_norm Hms. unfold is_pp_config. rewrite get_put_same, set_data_eq. cbn. auto.
+Qed.
+Lemma pp_configure_limit_accepted cx W l W' :
+  pp_configure_program cx W (PSBackupIdsLimit l) = Ok W' ->
+  l <> 0 /\ exists c', is_pp_config W' (nthk (cx_metas cx) 0) c' /\ pc_backup_limit c' = l.
+Proof.
+  intros H. apply pp_configure_program_ok in H. destruct H as (m0 & m1 & rest & c & c' & Hms & _ & Ho & _ & _ & _ & _ & Ha & ->).
+  apply apply_setting_limit_result in Ha. destruct Ha as (H1 & H2 & _). split; [assumption|].
+  exists c'. nthk_norm Hms. unfold is_pp_config. rewrite get_put_same, set_data_eq. cbn. auto.
+Qed.
+
+(* ---- C17: fee < deposit persists; reconfiguration touches only the config account ---- *)
+Lemma pp_configure_program_frame cx W s W' :
+  pp_configure_program cx W s = Ok W' ->
+  exists c c', is_pp_config W (nthk (cx_metas cx) 0) c /\ apply_setting c s = Some c' /\
+    get W' (nthk (cx_metas cx) 0) = get W (nthk (cx_metas cx) 0) <| data := DPpConfig c' |> /\
+    (forall k, k <> nthk (cx_metas cx) 0 -> get W' k = get W k) /\ now W' = now W.
+Proof.
+  intros H. apply pp_configure_program_ok in H. destruct H as (m0 & m1 & rest & c & c' & Hms & _ & Ho & Hd & _ & _ & _ & Ha & ->).
+  exists c, c'. nthk_norm Hms. unfold is_pp_config. split; [auto|]. split; [assumption|]. split; [apply get_put_same|].
+  split; [|reflexivity]. intros k Hk. apply get_put_other. congruence.
+Qed.
+Lemma fee_lt_deposit cx W s W' c :
+  pp_configure_program cx W s = Ok W' -> is_pp_config W (nthk (cx_metas cx) 0) c -> cfg_ok c ->
+  exists c', is_pp_config W' (nthk (cx_metas cx) 0) c' /\ cfg_ok c'.
+Proof.
+  intros H (Ho & Hd) Hok. apply pp_configure_program_frame in H. destruct H as (c0 & c' & (_ & Hd0) & Ha & Hg & _).
+  assert (c0 = c) by congruence. subst c0. exists c'. split; [|eapply apply_setting_cfg_ok; eassumption].
+  unfold is_pp_config. rewrite Hg, set_data_eq. cbn. auto.
+Qed.
+Lemma reconfigure_does_not_touch_pending cx W s W' k r :
+  pp_configure_program cx W s = Ok W' -> data (get W k) = DAccessReq r -> get W' k = get W k.
+Proof.
+  intros H Hr. apply pp_configure_program_frame in H. destruct H as (c & c' & (_ & Hd) & _ & _ & Hfr & _).
+  apply Hfr. intros ->. congruence.
+Qed.
+Lemma set_admin_does_not_touch_pending cx W a W' k r :
+  pp_set_admin cx W a = Ok W' -> data (get W k) = DAccessReq r -> get W' k = get W k.
+Proof.
+  intros H Hr. apply pp_set_admin_ok in H. destruct H as (m0 & m1 & m2 & rest & auth & c & _ & _ & _ & _ & _ & _ & _ & Hd & _ & ->).
+  apply get_put_other. intros <-. congruence.
+Qed.
+
+(* the invariant over whole worlds: every KPassport-owned ProgramConfig satisfies cfg_ok; every passport instruction keeps it *)
+Definition pp_cfg_inv (W : world) : Prop := forall k c, is_pp_config W k c -> cfg_ok c.
+Lemma pp_cfg_inv_same_meta W W' :
+  pp_cfg_inv W -> (forall k, same_meta (get W' k) (get W k) \/ (forall c, data (get W' k) = DPpConfig c -> cfg_ok c)) -> pp_cfg_inv W'.
+Proof.
+  intros Hinv H k c (Ho & Hd). destruct (H k) as [(Hso & _ & Hsd)|Hc]; [|eauto]. apply (Hinv k). split; congruence.
+Qed.
+Lemma pp_process_preserves_cfg_inv cx W ix W' : pp_cfg_inv W -> pp_process cx W ix = Ok W' -> pp_cfg_inv W'.
+Proof.
+  intros Hinv H. destruct ix as [|a|s|m| |]; cbn [pp_process] in H.
+  - apply pp_initialize_program_ok in H. destruct H as (m0 & m1 & rest & _ & _ & _ & _ & _ & H). cbn zeta in H.
+    destruct H as (_ & _ & _ & Hpt). apply (pp_cfg_inv_same_meta W); [assumption|]. intros k. destruct (Hpt k) as (Hx & _).
+    case_key k KPpConfig; [right|left; assumption]. destruct Hx as (_ & _ & ->). intros c Hc. ok_inj Hc. apply cfg_ok_default.
+  - apply pp_set_admin_ok in H. destruct H as (m0 & m1 & m2 & rest & auth & c & _ & _ & _ & _ & _ & _ & Ho & Hd & _ & ->).
+    apply (pp_cfg_inv_same_meta W); [assumption|]. intros k. rewrite get_put. case_key (mkey m2) k; [right|left; apply same_meta_refl].
+    rewrite set_data_eq. cbn. intros c0 Hc. ok_inj Hc. assert (Hok := Hinv _ _ (conj Ho Hd)). destruct c; exact Hok.
+  - apply pp_configure_program_ok in H. destruct H as (m0 & m1 & rest & c & c' & _ & _ & Ho & Hd & _ & _ & _ & Ha & ->).
+    apply (pp_cfg_inv_same_meta W); [assumption|]. intros k. rewrite get_put. case_key (mkey m0) k; [right|left; apply same_meta_refl].
+    rewrite set_data_eq. cbn. intros c0 Hc. ok_inj Hc. eapply apply_setting_cfg_ok; [eassumption|]. exact (Hinv _ _ (conj Ho Hd)).
+  - apply pp_request_access_ok in H. cbn zeta in H.
+    destruct H as (m0 & m1 & m2 & rest & c & _ & _ & _ & _ & _ & _ & _ & _ & _ & _ & _ & _ & _ & _ & _ & _ & _ & Hpt).
+    apply (pp_cfg_inv_same_meta W); [assumption|]. intros k. destruct (Hpt k) as (Hx & _).
+    destruct (key_eqb k (KPpRequest (access_mode_service m))); [right|left; assumption]. destruct Hx as (_ & _ & ->). discriminate.
+  - apply pp_grant_access_ok in H. destruct H as (m0 & m1 & m2 & m3 & rest & c & r & _ & _ & _ & _ & _ & _ & _ & _ & _ & _ & _ & _ & _ & _ & _ & Hpt).
+    apply (pp_cfg_inv_same_meta W); [assumption|]. intros k. left. apply Hpt.
+  - apply pp_deny_access_ok in H. destruct H as (m0 & m1 & m2 & rest & c & r & _ & _ & _ & _ & _ & _ & _ & _ & _ & _ & _ & Hpt).
+    apply (pp_cfg_inv_same_meta W); [assumption|]. intros k. left. apply Hpt.
+Qed.
+
+(* ---- C18: guards of RequestAccess, stored mode, and the request can pay its fee ---- *)
+Lemma pp_request_access_guards cx W mode W' :
+  pp_request_access cx W mode = Ok W' ->
+  cx_height cx = 1 /\
+  exists c, is_pp_config W (nthk (cx_metas cx) 0) c /\
+    pc_paused c = false /\ pc_request_paused c = false /\ pc_deposit c <> 0 /\
+    access_mode_service mode <> default_key /\
+    match mode with
+    | AMValidator _ => True
+    | AMValidatorWithBackups _ b => b <> [] /\ N.of_nat (length b) <= pc_backup_limit c
+    end /\
+    access_mode_len mode <= ACCESS_MODE_MAX.
+Proof.
+  intros H. apply pp_request_access_ok in H. cbn zeta in H.
+  destruct H as (m0 & m1 & m2 & rest & c & Hms & Hh & _ & Ho & Hd & Hp1 & Hp2 & Hmode & Hsvc & Hdep & _ & Hlen & _).
+  split; [assumption|]. exists c. nthk_norm Hms. unfold is_pp_config, mode_ok in *. auto 10.
+Qed.
+Lemma pp_request_access_not_top_level_fails cx W mode : cx_height cx <> 1 -> is_ok (pp_request_access cx W mode) = false.
+Proof. intros Hh. apply not_ok_fails. intros W' H. apply pp_request_access_guards in H. tauto. Qed.
+Lemma stored_mode_is_submitted cx W mode W' :
+  pp_request_access cx W mode = Ok W' ->
+  exists r, is_pp_request W' (KPpRequest (access_mode_service mode)) r /\ ar_mode r = mode /\
+            ar_service r = access_mode_service mode /\ ar_beneficiary r = nthk (cx_metas cx) 1.
+Proof.
+  intros H. apply pp_request_access_spec in H. cbn zeta in H. destruct H as (c & _ & _ & _ & _ & Hpt).
+  eexists. unfold is_pp_request. rewrite Hpt, key_eqb_refl. cbn. auto.
+Qed.
+Lemma lam_request_ge c : pc_deposit c < two64 -> pc_deposit c <= lam_request c /\
+  (pc_deposit c + rent LEN_ACCESS_REQ < two64 -> lam_request c = pc_deposit c + rent LEN_ACCESS_REQ).
+Proof. unfold lam_request, sat_add, two64. intros H. destruct (_ <? _) eqn:E; keq; lia. Qed.
+(* a request accepted under a config with fee < deposit holds more than the fee it remembers: saturating_sub in
+   GrantAccess does not saturate for it, and (no u64 overflow) the remainder still covers the rent minimum plus deposit - fee *)
+Lemma accepted_request_can_pay_fee cx W mode W' c :
+  pp_request_access cx W mode = Ok W' -> is_pp_config W (nthk (cx_metas cx) 0) c -> cfg_ok c -> pc_deposit c < two64 ->
+  let rk := KPpRequest (access_mode_service mode) in
+  exists r, is_pp_request W' rk r /\ ar_fee r = pc_fee c /\ ar_fee r < pc_deposit c /\ ar_fee r < lamports (get W' rk) /\
+    lam_request c <= lamports (get W' rk) /\
+    (pc_deposit c + rent LEN_ACCESS_REQ < two64 -> rent LEN_ACCESS_REQ + pc_deposit c <= lamports (get W' rk)).
+Proof.
+  intros H (_ & Hd) Hok Hu. assert (Hg := pp_request_access_guards _ _ _ _ H). destruct Hg as (_ & c1 & (_ & Hd1) & _ & _ & Hdep & _).
+  apply pp_request_access_spec in H. cbn zeta in *. destruct H as (c0 & (_ & Hd0) & _ & _ & _ & Hpt).
+  assert (c0 = c) by congruence. assert (c1 = c) by congruence. subst c0 c1.
+  destruct Hok as [Hz|Hlt]; [contradiction|]. destruct (lam_request_ge c Hu) as (Hge & Hex).
+  eexists. unfold is_pp_request. rewrite Hpt, key_eqb_refl. cbn [owner data lamports ar_fee]. repeat split; cbn [ar_fee lamports]; lia.
 Qed.
